@@ -760,7 +760,13 @@ func (ex *Exec) enterLoopHeader(st *State, fr *Frame, li *loopInfo, from *ssa.Ba
 		ex.w.heapHavocAll(st.heap)
 	} else {
 		for _, n := range sortedKeys(li.mods) {
-			ex.w.heapSet(st.heap, n, ex.w.Fresh(n+"!loop", li.mods[n]))
+			oldA := ex.w.heapGet(st.heap, n, li.mods[n])
+			na := ex.w.Fresh(n+"!loop", li.mods[n])
+			if n == "BM" {
+				// backing arrays never change their length
+				st.assume(Term{fmt.Sprintf("(forall ((r!q Ref)) (! (= (blen (select %s r!q)) (blen (select %s r!q))) :pattern ((select %s r!q))))", na.S, oldA.S, na.S), SBool})
+			}
+			ex.w.heapSet(st.heap, n, na)
 		}
 		// arrays written only at objects allocated inside the loop: objects that
 		// existed when the loop was entered keep their values
